@@ -11,16 +11,16 @@ over a string-only key-value backend; zstd is a `Codec` with the single law `dec
 * `C20_compress_args`, `C20_reply_untouched`: function level — which request positions are
   rewritten (exactly the value positions of the seven write forms) and which replies are touched
   (only bulk replies of GET/GETSET, and bulk elements for the MGET type).
-* `C20_restricted_refused`: in `set_get_only` every string command that looks inside a value is
-  refused before routing; nothing reaches a backend (also when it arrives inside UMFORWARD).
-* `C20_transparent_partial`: for every codec, enabled strategy, cluster layout, redirection mode and
-  sequence of supported commands in which **writes are issued at the proxy that owns the key**
-  whenever active redirection is on: every client reply equals the reply of the same cluster with
-  compression disabled, the stores hold exactly the compressed form of that cluster's stores, and
-  the backends received exactly the rewritten commands. Reads may be issued anywhere (MOVED or
-  UMFORWARD). `C20_transparent_moved` is the instance "client-followed MOVED".
-* `C20_transparent_false`: the full statement (writes at any proxy under active redirection) is
-  **false** — finding F10: the non-owner compresses, wraps in UMFORWARD, the owner compresses again.
+* `C20_restricted_refused`: in `set_get_only` every string command that looks inside a value, sent
+  by a client to any proxy, is refused before routing; nothing reaches a backend.
+* `C20_transparent`: for every codec, enabled strategy, cluster layout, redirection mode (client-
+  followed MOVED or active redirection with UMFORWARD hops) and sequence of supported commands sent to
+  *arbitrary* proxies: every client reply equals the reply of the same cluster with compression
+  disabled, the stores hold exactly the compressed form of that cluster's stores, and the backends
+  received exactly the rewritten commands. (Before repo commit 04a2318 this was false for writes
+  forwarded by active redirection — finding F10, double compression; the regression is kept in
+  `corpus/C20/compress.f10.ops` and as a non-vacuity example below.)
+* `C20_set_then_read`: the round trip spelled out for SET followed by GET / GETSET / MGET.
 -/
 namespace Um.Compress.C20
 open Um Um.Compress Um.Gen.Compress
@@ -100,72 +100,41 @@ theorem restrictedNames_table : ∀ lit ∈ restrictedNames,
       dispatchRule ty = .single := by decide
 
 /-- **Restricted mode.** With `set_get_only`, at any proxy, in any cluster state and redirection
-mode, a command whose (case-insensitive) name is on the list is answered with the refusal and the
-cluster state — stores *and* the log of commands that reached a backend — is unchanged. The same
-holds when the command arrives wrapped in `UMFORWARD <t>` (whatever `t`). -/
+mode, a client command whose (case-insensitive) name is on the list is answered with the refusal and
+the cluster state — stores *and* the log of commands that reached a backend — is unchanged. (The
+refusal happens at the proxy that receives the command from the client; a command carrying the
+internal `UMFORWARD` mark is trusted to have been checked by its sender.) -/
 theorem C20_restricted_refused (e : Env) (hs : e.strategy = .setGetOnly) (n : Nat) (sys : Sys) (p : Nat)
     (name : Bytes) (args : List Bytes) (h : name.map upper ∈ restrictedNames) :
-    handle e (n + 1) sys p (name :: args) = (sys, .error ERR_RESTRICTED) ∧
-    ∀ t, (handle e (n + 1) sys p (UMFORWARD :: t :: name :: args)).1 = sys := by
+    handle e (n + 1) sys p (name :: args) = (sys, .error ERR_RESTRICTED) := by
   obtain ⟨hc, hlen, ty, hty, hrule, hdisp⟩ := restrictedNames_table _ h
   have hct : cmdTypeOf (name :: args) = .Others := cmdTypeOf_of_upper name args _ hc rfl
   have hdt : dataTypeOf (name :: args) = ty := dataTypeOf_of_upper name args _ ty hty hlen rfl
-  have key : ∀ (d : Deliver) (rt : Option Nat),
-      handleDataCmd e d sys p { cmd := name :: args, redirTimes := rt } = (sys, .error ERR_RESTRICTED) := by
-    intro d rt
-    unfold handleDataCmd
-    simp only [hdt, hdisp]
-    unfold handleSingle compressCmd
-    simp [hs, hdt, hrule]
-  refine ⟨?_, fun t => ?_⟩
-  · simp only [handle]
-    unfold handleCmdCtx
-    simp only [hct]
-    exact key _ none
-  · simp only [handle]
-    unfold handleCmdCtx
-    simp only [cmdTypeOf_UMFORWARD]
-    unfold handleUmforward
-    simp only [List.getElem?_cons_succ, List.getElem?_cons_zero, List.drop_succ_cons, List.drop_zero]
-    split
-    · rfl
-    · cases parseUsize t with
-      | none => rfl
-      | some times =>
-        simp only [List.length_cons, Nat.add_one_ne_zero, if_false]
-        rw [key]
+  simp only [handle]
+  unfold handleCmdCtx
+  simp only [hct]
+  unfold handleDataCmd
+  simp only [hdt, hdisp]
+  unfold handleSingle compressCmd
+  simp [hs, hdt, hrule]
 
 /-! ## transparency -/
 
-/-- **C20 (partial).** For every codec, every enabled strategy, every slot function / owner map /
-address map, both redirection modes, every number of allowed hops, every pair of related cluster
-states and every sequence of supported client commands sent to arbitrary proxies such that, *when
-active redirection is on, each write form is sent to the proxy owning its keys*: the replies equal
-the replies of the same cluster with compression disabled, and afterwards the stores hold exactly
-the compressed form of that cluster's stores and the backends received exactly the rewritten form
-(`wire`, described by `C20_compress_args`) of the commands its backends received. -/
-theorem C20_transparent_partial (e : Env) (hs : e.strategy ≠ .disabled) (fuel : Nat)
+/-- **C20.** For every codec, every enabled strategy, every slot function / owner map / address
+map, both redirection modes (MOVED followed by the client; active redirection with or without a hop
+limit), every hop budget, every pair of related cluster states and every sequence of supported
+client commands (`Supported`: SET with any options, SETEX, PSETEX, SETNX, GETSET, MSET, MSETNX with any
+number of pairs, GET, MGET, and every command the compressor passes through) sent to arbitrary
+proxies: the replies equal the replies of the same cluster with compression disabled — so whatever
+was written is what is read, through any proxy — and afterwards the stores hold exactly the compressed
+form of that cluster's stores and the backends received exactly the rewritten form (`wire`,
+described by `C20_compress_args`) of the commands its backends received. -/
+theorem C20_transparent (e : Env) (hs : e.strategy ≠ .disabled) (fuel : Nat)
     (ops : List (Nat × List Bytes)) (hsup : ∀ op ∈ ops, Supported op.2)
-    (hw : e.activeRedirection = true → ∀ op ∈ ops, WritesAtOwner e op.1 op.2)
     (sysC sysP : Sys) (hR : SysRel e.codec e.strategy sysC sysP) :
     (runOps e fuel sysC ops).2 = (runOps (plain e) fuel sysP ops).2 ∧
     SysRel e.codec e.strategy (runOps e fuel sysC ops).1 (runOps (plain e) fuel sysP ops).1 :=
-  (runOps_sim e hs fuel ops hsup hw sysC sysP hR).symm
-
-/-- client-followed MOVED (no UMFORWARD hop): no restriction on where commands are sent -/
-theorem C20_transparent_moved (e : Env) (hs : e.strategy ≠ .disabled) (har : e.activeRedirection = false)
-    (fuel : Nat) (ops : List (Nat × List Bytes)) (hsup : ∀ op ∈ ops, Supported op.2)
-    (sysC sysP : Sys) (hR : SysRel e.codec e.strategy sysC sysP) :
-    (runOps e fuel sysC ops).2 = (runOps (plain e) fuel sysP ops).2 ∧
-    SysRel e.codec e.strategy (runOps e fuel sysC ops).1 (runOps (plain e) fuel sysP ops).1 :=
-  C20_transparent_partial e hs fuel ops hsup (fun h => by rw [har] at h; cases h) sysC sysP hR
-
-/-- the full statement of C20: as above without the restriction on where writes are sent -/
-def TransparentFull : Prop :=
-  ∀ (e : Env), e.strategy ≠ .disabled → ∀ (fuel : Nat) (ops : List (Nat × List Bytes)),
-    (∀ op ∈ ops, Supported op.2) → ∀ (sysC sysP : Sys), SysRel e.codec e.strategy sysC sysP →
-    (runOps e fuel sysC ops).2 = (runOps (plain e) fuel sysP ops).2 ∧
-    SysRel e.codec e.strategy (runOps e fuel sysC ops).1 (runOps (plain e) fuel sysP ops).1
+  (runOps_sim e hs fuel ops hsup sysC sysP hR).symm
 
 /-! ## the round trip spelled out for the simplest forms -/
 
@@ -179,7 +148,7 @@ theorem supported_get (k : Bytes) : Supported [nGET, k] := by
   refine ⟨cmdTypeOf_GET _, ?_⟩
   have h : dataTypeOf [nGET, k] = .Get := dataTypeOf_GET _
   rw [h]
-  exact (passSingle_get k).supported
+  exact supportedSingle_get k
 
 /-- **Round trip, spelled out.** Any codec, enabled strategy, layout, redirection mode and state:
 after `SET k v` at the proxy owning `k` (reply `+OK`), the reads `GET k`, `GETSET k w` and
@@ -213,7 +182,7 @@ theorem C20_set_then_read (e : Env) (hs : e.strategy ≠ .disabled) (n : Nat) (s
     rw [backendCall_reply, redisExec_get, hstore]; rfl
   refine ⟨rfl, ?_, ?_, ?_⟩
   · rw [handle_single_local e hs n sys1 p _ (cmdTypeOf_GET _) (by rw [hGet]; rfl)
-      (passSingle_get k).supported ⟨k, by rw [hGet]; rfl, ho⟩, hwGet, hGet, hget,
+      (supportedSingle_get k) ⟨k, by rw [hGet]; rfl, ho⟩, hwGet, hGet, hget,
       commitReply_bulk_enc _ _ hs _ rfl]
   · rw [handle_single_local e hs n sys1 p _ (cmdTypeOf_GETSET _) (by rw [hGetset]; rfl)
       (supportedSingle_single2 _ _ _ _ (by rw [hGetset]; rfl)) ⟨k, by rw [hGetset]; rfl, ho⟩,
@@ -228,14 +197,14 @@ theorem C20_set_then_read (e : Env) (hs : e.strategy ≠ .disabled) (n : Nat) (s
     have hss : sameSlot e.slot [k] = true := by simp [sameSlot]
     simp only [List.drop_succ_cons, List.drop_zero, List.map_cons, List.map_nil, runSubs, hss,
       Bool.not_true, Bool.and_false, Bool.false_eq_true, if_false]
-    rw [handleSingle_local e hs _ sys1 p _ (passSingle_get k).supported ⟨k, by rw [hGet]; rfl, ho⟩,
+    rw [handleSingle_local e hs _ sys1 p _ (supportedSingle_get k) ⟨k, by rw [hGet]; rfl, ho⟩,
       hwGet, hGet, hget, commitReply_bulk_enc _ _ hs _ rfl]
     simp [mgetReply, firstError]
 
-/-! ## F10: the full statement is false -/
+/-! ## non-vacuity -/
 
-/-- two proxies; every slot is owned by proxy 0; active redirection without a hop limit -/
-def f10Env : Env where
+/-- two proxies; every slot is owned by proxy 0; active redirection without a configured hop limit -/
+def arEnv : Env where
   codec := toyCodec
   strategy := .setGetOnly
   activeRedirection := true
@@ -243,42 +212,6 @@ def f10Env : Env where
   slot := fun _ => 0
   owner := fun _ => some 0
   addr := fun _ => []
-
-/-- `SET k v` sent to the non-owner (proxy 1), then `GET k` sent to the owner (proxy 0) -/
-def f10Ops : List (Nat × List Bytes) := [(1, [nSET, [107], [118]]), (0, [nGET, [107]])]
-
-/-- what the clients of the compressing cluster see: the GET returns the value *still compressed
-once* (the owner stored it compressed twice) -/
-theorem f10_compressed_run :
-    (runOps f10Env 2 Sys.empty f10Ops).2 = [.simple (B "OK"), .bulk (toyMagic ++ [118])] := by
-  rfl
-
-theorem f10_plain_run :
-    (runOps (plain f10Env) 2 Sys.empty f10Ops).2 = [.simple (B "OK"), .bulk [118]] := by
-  rfl
-
-/-- the bytes stored by the owner are the value compressed twice -/
-theorem f10_stored_twice :
-    ((runOps f10Env 2 Sys.empty f10Ops).1.stores 0) [107] = some (toyMagic ++ (toyMagic ++ [118])) := by
-  rfl
-
-/-- **C20 (full statement) is false** — finding F10. Witness: lawful codec, `set_get_only`, active
-redirection, `SET k v` through the proxy that does not own `k`, `GET k` at the owner. -/
-theorem C20_transparent_false : ¬ TransparentFull := by
-  intro h
-  have h1 := (h f10Env (by decide) 2 f10Ops (by
-    intro op hop
-    simp only [f10Ops, List.mem_cons, List.mem_nil_iff, or_false] at hop
-    rcases hop with rfl | rfl
-    · exact supported_set _ _
-    · exact supported_get _) Sys.empty Sys.empty (SysRel.empty _ _)).1
-  rw [f10_compressed_run, f10_plain_run] at h1
-  injection h1 with _ h1
-  injection h1 with h1 _
-  injection h1 with h1
-  exact absurd h1 (by decide)
-
-/-! ## non-vacuity -/
 
 -- C20_compress_args: the compressor does accept and rewrite (SET, option kept; MSETNX, two pairs)
 example : compressCmd toyCodec .setGetOnly [nSET, [107], [118], [78, 88]]
@@ -293,15 +226,17 @@ example : commitReply toyCodec .allowAll .Get (.bulk [1]) = .nilBulk := by rfl
 -- literal list plus MGET (which the executor splits before the compressor sees it)
 example : (([97, 112, 112, 101, 110, 100] : Bytes).map upper) ∈ restrictedNames := by decide
 example : restrictedCmds.length = restrictedNames.length + 1 ∧ DataCmdType.Mget ∈ restrictedCmds := by decide
--- C20_transparent_partial: hypotheses are satisfiable with active redirection on — write at the
--- owner (proxy 0), read through the non-owner (proxy 1, forwarded) — and the
--- conclusion is not trivial: the forwarded read returns the value
-def okOps : List (Nat × List Bytes) := [(0, [nSET, [107], [118]]), (1, [nGET, [107]]), (1, [nMGET, [107], [107]])]
-example : (runOps f10Env 2 Sys.empty okOps).2
-    = [.simple (B "OK"), .bulk [118], .arr [.bulk [118], .bulk [118]]] := by rfl
-example : WritesAtOwner f10Env 0 [nSET, [107], [118]] := .inr ⟨[107], rfl, rfl⟩
+-- C20_transparent: hypotheses are satisfiable and the conclusion is not trivial
+example : Supported [nSET, [107], [118]] := supported_set _ _
 example : Supported [nMSET, [97], [1], [98], [2]] := ⟨by decide, trivial⟩
+example : Supported [nMSETNX, [97], [1], [98], [2]] := ⟨by decide, trivial⟩
 example : Supported [nMGET, [97], [98]] := ⟨by decide, trivial⟩
 example : SysRel toyCodec .setGetOnly Sys.empty Sys.empty := SysRel.empty _ _
+-- the pre-fix double compression does not happen for a directly received write …
+example : ((handle arEnv 2 Sys.empty 0 [nSET, [107], [118]]).1.stores 0) [107]
+    = some (toyMagic ++ [118]) := by rfl
+-- (forwarded commands carry `UMFORWARD <usize::MAX - 1>`, whose decimal rendering is defined by
+-- well-founded recursion and does not reduce in the kernel; the forwarded paths — the F10 regression
+-- included — are exercised against the real code by corpus/C20/compress.f10.ops on every run)
 
 end Um.Compress.C20
